@@ -170,6 +170,10 @@ def make_sandbox(placement):
     fordrun.write_tree(root, SRC)
     os.symlink("../sibling", root / "proj" / "link_out")
     os.symlink("../../sibling/guide", root / "proj" / "pages" / "guide")
+    # links inside the directories FORD copies: to a file (absolute), to a directory and to a file (relative)
+    os.symlink(str(root / "sibling" / "unrelated.txt"), root / "proj" / "media" / "abs_link.txt")
+    os.symlink("../../sibling/keep", root / "proj" / "media" / "rel_dir_link")
+    os.symlink("../../../sibling/guide/table.csv", root / "proj" / "pages" / "img" / "rel_link.csv")
     (root / "elsewhere").mkdir()
     if PLACEMENTS[placement][2] == "srclink":
         (root / "proj" / "build").mkdir()
@@ -201,7 +205,7 @@ def snapshot_outside(root, roots_out):
             elif stat.S_ISDIR(st_.st_mode):
                 snap[p] = ("dir", stat.S_IMODE(st_.st_mode))
             else:
-                snap[p] = ("file", stat.S_IMODE(st_.st_mode), hashlib.sha1(open(p, "rb").read()).hexdigest())
+                snap[p] = ("file", stat.S_IMODE(st_.st_mode), hashlib.sha1(open(p, "rb").read()).hexdigest(), st_.st_mtime_ns)
     return snap
 
 
@@ -253,12 +257,21 @@ def run_ford(root, placement, optset, fail_at):
     return settings, err, buf.getvalue(), list(STATE["events"]), STATE["failed"]
 
 
-def inside(path, roots):
+FOLLOWS_LINKS = {"open", "os.utime", "os.chmod", "os.chown", "os.truncate", "os.setxattr", "os.removexattr"}
+
+
+def inside(path, roots, event=None):
+    """is the object that the event changes inside one of `roots`?  Events that follow symbolic links change what the
+    link points to; the others change the directory entry itself."""
     p = os.path.normpath(path)
-    rp = os.path.normpath(os.path.realpath(path)) if os.path.exists(os.path.dirname(path)) else p
+    if event in FOLLOWS_LINKS and os.path.islink(p):
+        cands = [os.path.normpath(os.path.realpath(p))]
+    else:
+        rp = os.path.normpath(os.path.realpath(path)) if os.path.exists(os.path.dirname(path)) else p
+        cands = [p, rp]
     for r in roots:
         r = os.path.normpath(str(r))
-        for q in (p, rp):
+        for q in cands:
             if q == r or q.startswith(r + os.sep):
                 return True
     return False
@@ -299,7 +312,7 @@ def run_case(st: Stats, placement, optset, fail_at):
             st.violation("mutating-event-before-refusal", stratum, feats, inp, [list(map(str, e)) for e in events[:3]], "no file-system change")
     else:
         for (event, paths) in events:
-            off = [p for p in paths if not inside(p, allowed) and not (event == "os.mkdir" and os.path.normpath(p) in ancestors)]
+            off = [p for p in paths if not inside(p, allowed, event) and not (event == "os.mkdir" and os.path.normpath(p) in ancestors)]
             if off:
                 bad += 1
                 rel = os.path.relpath(off[0], root)
